@@ -278,7 +278,7 @@ func (fs *FS) Rename(oldname, newname string) error {
 	}
 	oldInfo, err := oldFile.Stat()
 	if err != nil {
-		return err
+		return &hackpadfs.LinkError{Op: "rename", Old: oldname, New: newname, Err: err}
 	}
 	if oldname != newname && newname != "." {
 		newParent, err := fs.getFile(path.Dir(newname))
@@ -304,7 +304,7 @@ func (fs *FS) Rename(oldname, newname string) error {
 		}
 		contents, err := oldFile.fileData.Data()
 		if err != nil {
-			return err
+			return &hackpadfs.LinkError{Op: "rename", Old: oldname, New: newname, Err: err}
 		}
 		txn, err := fs.store.Transaction(TransactionOptions{Mode: TransactionReadWrite})
 		if err == nil {
@@ -318,7 +318,10 @@ func (fs *FS) Rename(oldname, newname string) error {
 		} else {
 			err = commitErr(txn.Commit(context.Background()))
 		}
-		return err
+		if err != nil {
+			return &hackpadfs.LinkError{Op: "rename", Old: oldname, New: newname, Err: err}
+		}
+		return nil
 	}
 
 	if oldname == "." || strings.HasPrefix(newname, oldname+"/") {
@@ -335,11 +338,11 @@ func (fs *FS) Rename(oldname, newname string) error {
 
 	files, err := oldFile.ReadDirNames()
 	if err != nil {
-		return err
+		return &hackpadfs.LinkError{Op: "rename", Old: oldname, New: newname, Err: err}
 	}
 	err = fs.setFile(newname, oldFile.fileData)
 	if err != nil {
-		return err
+		return &hackpadfs.LinkError{Op: "rename", Old: oldname, New: newname, Err: err}
 	}
 	for _, name := range files {
 		err := fs.Rename(path.Join(oldname, name), path.Join(newname, name))
@@ -348,7 +351,11 @@ func (fs *FS) Rename(oldname, newname string) error {
 			return err
 		}
 	}
-	return fs.setFile(oldname, nil)
+	err = fs.setFile(oldname, nil)
+	if err != nil {
+		return &hackpadfs.LinkError{Op: "rename", Old: oldname, New: newname, Err: err}
+	}
+	return nil
 }
 
 // Stat implements hackpadfs.StatFS
